@@ -2,49 +2,42 @@ package main
 
 import (
 	"fmt"
-	"math/rand"
 	"os"
+	"strings"
+	"unicode/utf8"
 
-	"github.com/tsawler/tabula"
-
-	"verifharness/gen/pdfw"
+	"github.com/tsawler/tabula/model"
+	"github.com/tsawler/tabula/rag"
 )
 
 func main() {
-	for i := 0; i < 8; i++ {
-		rd := rand.New(rand.NewSource(int64(100 + i)))
-		g := pdfw.GenDoc(rd, pdfw.DocOpts{MinPages: 1, MaxPages: 3, MaxLines: 6, MaxFonts: 3, TreeDepth: 1, Inherit: "leaf", NoEmptyPages: true,
-			FontKinds: []string{"tt-winansi-tounicode", "t1-macroman", "t1-std14-tounicode"}, ExactKinds: true})
-		lay := pdfw.BaselineLayout()
-		b := pdfw.Build(rd.Int63(), lay, []*pdfw.Doc{g.Doc})
-		victim := fmt.Sprintf("font:%d", g.Doc.Fonts[i%3].ID)
-		num := b.NumOf[victim]
-		data := append([]byte{}, b.Bytes...)
-		want := fmt.Sprintf("%d 0 R", num)
-		n := 0
-		for _, f := range b.Fields {
-			if f.Kind == "ref" && string(data[f.Start:f.End]) == want {
-				for k := f.Start; k < f.End && data[k] >= '0' && data[k] <= '9'; k++ {
-					data[k] = '9'
-				}
-				n++
+	b, _ := os.ReadFile("/dev/shm/c13text.txt")
+	text := string(b)
+	var blocks []rag.ContentBlock
+	for i, t := range strings.Split(text, "\n\n") {
+		blocks = append(blocks, rag.ContentBlock{Type: model.ElementTypeParagraph, Text: t, Page: 1, Index: i})
+	}
+	bs := rag.NewBoundaryDetector().DetectBoundaries(blocks)
+	sc := rag.DefaultSizeConfig()
+	sc.Target = rag.SizeLimit{Value: 25, Unit: rag.SizeUnitWords}
+	sc.Min = rag.SizeLimit{Value: 5, Unit: rag.SizeUnitWords}
+	sc.Max = rag.SizeLimit{Value: 50, Unit: rag.SizeUnitWords, Type: rag.LimitTypeHard}
+	sc.TokensPerChar = 0.3
+	sc.SplitAtSemanticBoundaries = true
+	for k := 0; k < 2; k++ {
+		bs2 := rag.NewBoundaryDetector().DetectBoundaries(blocks)
+		_ = bs
+		ps := rag.NewSizeCalculatorWithConfig(sc).SplitToSize(text, bs2)
+		for i, p := range ps {
+			if !utf8.ValidString(p) {
+				fmt.Printf("fresh boundaries: piece %d invalid: ...%q\n", i, p[len(p)-12:])
 			}
 		}
-		os.WriteFile("/dev/shm/dmg.pdf", data, 0o644)
-		seen := map[string]int{}
-		for k := 0; k < 40; k++ {
-			t, _, _ := tabula.Open("/dev/shm/dmg.pdf").Text()
-			seen[fmt.Sprintf("%x", fnvh(t))]++
+		fmt.Println("pieces", len(ps))
+	}
+	for _, bd := range bs {
+		if !utf8.RuneStart(text[min(bd.Position, len(text)-1)]) {
+			fmt.Printf("boundary %v at %d is inside a character: %q\n", bd.Type, bd.Position, text[bd.Position-4:bd.Position+4])
 		}
-		fmt.Println(i, "refs", n, "fonts", len(g.Doc.Fonts), "distinct results", seen)
 	}
-}
-
-func fnvh(s string) uint32 {
-	h := uint32(2166136261)
-	for i := 0; i < len(s); i++ {
-		h ^= uint32(s[i])
-		h *= 16777619
-	}
-	return h
 }
